@@ -1595,7 +1595,7 @@ func c17ParOp(g *c17Gen, objDoc func(mut int) *c17Doc, workers, rounds int) stri
 // c17GenParSections: the sections of the -race harness (TestVerifC17Race): a type and concurrent loads only.
 func c17GenParSections(r *verifh.Rng) []verifh.Section {
 	var secs []verifh.Section
-	nsec := verifh.Scale(10, 40)
+	nsec := verifh.Scale(16, 48)
 	for i := 0; i < nsec; i++ {
 		g := &c17Gen{r: r.Fork(), plain: i%2 == 0, dots: false, ext: i%4 == 1}
 		g.mode.dotLiteral = 15
